@@ -8,9 +8,11 @@
    model, so DIFF does not occur for them. *)
 let engines : (string * (string list -> string)) list = [
   "charset", E_charset.run;
+  "regex", E_regex.run;
 ]
 (* engines with an oracle of their own: (cases tokens, impl result) -> None | Some msg *)
 let oracles : (string * (string list -> string -> string -> string option)) list = [
+  "regex", E_regex.oracle;
 ]
 let read_lines f =
   let ic = open_in f in
@@ -24,7 +26,7 @@ let () =
   let impl = if Array.length Sys.argv > 3 then Some (Array.of_list (read_lines Sys.argv.(3))) else None in
   List.iteri (fun i line ->
     let t = toks line in
-    let m = try run t with Util.Panic -> "PANIC" | Stack_overflow -> "MODEL-STACK-OVERFLOW" in
+    let m = try run t with Util.Panic -> "PANIC" | Stack_overflow -> "MODEL-STACK-OVERFLOW" | e -> "MODEL-EXN " ^ Printexc.to_string e in
     match impl with
     | None -> print_endline m
     | Some a ->
@@ -33,7 +35,7 @@ let () =
         match List.assoc_opt engine oracles with
         | None -> if r = m then "OK", "" else "BAD", "impl differs from the verified model (spec determines the result uniquely)"
         | Some o ->
-          (match (try o t r m with Util.Panic -> Some "oracle panic" | Failure s -> Some ("oracle cannot read impl result: " ^ s)) with
+          (match (try o t r m with Util.Panic -> Some "oracle panic" | Failure s -> Some ("oracle cannot read impl result: " ^ s) | e -> Some ("oracle exception " ^ Printexc.to_string e)) with
            | Some msg -> "BAD", msg
            | None -> if r = m then "OK", "" else "DIFF", "")
       in
